@@ -1,5 +1,6 @@
 import KoordVerif.Common.Proto
 import KoordVerif.Model.C05
+import KoordVerif.Model.C05Prof
 /-
 Driver for C05.  One case = one history against one reservation cache (harness "cache") or a list of
 independent owner-matching questions (harness "match").  Integer tokens only.
@@ -24,6 +25,14 @@ independent owner-matching questions (harness "match").  Integer tokens only.
   fit ru q0 q1 q2 p0 p1 p2 prePods  -> `fit pods f0 f1 f2` | `fit none`
   nom ru                            -> `nom 0|1` | `nom none`
   own perr k (obj ctrl lbl)*        -> `own 0|1`                                   (MatchOwners)
+  harness "profiles" (Model/C05Prof.lean): P caches, one per scheduler profile
+  mnew P
+  madd kind valid <robj> k role*                 informer Add delivered in the order role* (0 = global handler, i = profile i)
+  mupd kindOld kindNew valid <robj> <robj> k role*
+  mdel kind <robj> k role*
+  mhadd <hpod> | mhupd <hpod> <hpod> | mhdel <hpod>      pod informer event, to every profile
+  massume prof ru <pod>                          -> `err k`
+      each followed by, for every profile i = 1..P:  `prof i` + the dump of its cache
   chk ignored perr hasName nameMatch exact unsched tolerate taintBad affinity k (obj ctrl lbl)*  -> `chk 0|1`
 -/
 namespace KoordVerif.C05
@@ -251,10 +260,86 @@ def stepLine (c : Cache) (line : String) : Cache × List String :=
     | _ => bad
   | _ => bad
 
+def dumpProfiles (ms : List Cache) : List String :=
+  (ms.zipIdx.map (fun (c, i) => s!"prof {i + 1}" :: dump c)).flatMap id
+
+/-- `k role*` : a permutation of 0..P -/
+def parseOrder (p : Nat) : List Int → Option (List Nat)
+  | k :: rest =>
+    let ord := rest.map Int.toNat
+    if k.toNat == rest.length && rest.length == p + 1 && (List.range (p + 1)).all (fun x => ord.contains x) then some ord else none
+  | [] => none
+
+/-- the "profiles" stream: lines starting with `m` -/
+def stepProfiles (ms : List Cache) (line : String) : Option (List Cache × List String) :=
+  let bad : Option (List Cache × List String) := some (ms, ["bad-op"])
+  let p := ms.length
+  let ev (e : REv) (ordToks : List Int) : Option (List Cache × List String) :=
+    match parseOrder p ordToks with
+    | some ord => let ms' := deliverAll ms e (gfOfOrder ord); some (ms', dumpProfiles ms')
+    | none => bad
+  let all (f : Cache → Cache) : Option (List Cache × List String) :=
+    let ms' := deliverAll ms (.bcast f) (fun _ => false); some (ms', dumpProfiles ms')
+  match toks line with
+  | ["mnew", n] =>
+    match n.toNat? with
+    | some k => if k ≥ 1 && k ≤ 8 then some (List.replicate k Cache.empty, []) else bad
+    | none => bad
+  | "madd" :: rest =>
+    match ints? rest with
+    | some (kind :: valid :: l) =>
+      match parseRObj (l.take 21) with
+      | some o => ev (.add kind.toNat (valid != 0) o) (l.drop 21)
+      | none => bad
+    | _ => bad
+  | "mupd" :: rest =>
+    match ints? rest with
+    | some (ko :: kn :: valid :: l) =>
+      match parseRObj (l.take 21), parseRObj ((l.drop 21).take 21) with
+      | some o, some n => ev (.upd ko.toNat kn.toNat (valid != 0) o n) (l.drop 42)
+      | _, _ => bad
+    | _ => bad
+  | "mdel" :: rest =>
+    match ints? rest with
+    | some (kind :: l) =>
+      match parseRObj (l.take 21) with
+      | some o => ev (.del kind.toNat o) (l.drop 21)
+      | none => bad
+    | _ => bad
+  | "mhadd" :: rest =>
+    match (ints? rest).bind parseHPod with
+    | some hp => all (fun c => podUpdate c none hp)
+    | none => bad
+  | "mhupd" :: rest =>
+    match ints? rest with
+    | some l =>
+      match parseHPod (l.take 8), parseHPod (l.drop 8) with
+      | some po, some pn => all (fun c => podUpdate c (some po) pn)
+      | _, _ => bad
+    | none => bad
+  | "mhdel" :: rest =>
+    match (ints? rest).bind parseHPod with
+    | some hp => all (fun c => podDelete c hp)
+    | none => bad
+  | "massume" :: rest =>
+    match ints? rest with
+    | some (prof :: ru :: l) =>
+      match parsePod l with
+      | some pd =>
+        if prof.toNat == 0 || prof.toNat > p then bad else
+        let (ms', e) := assumeAt (prof.toNat - 1) ms ru.toNat [pd]
+        some (ms', s!"err {e}" :: dumpProfiles ms')
+      | none => bad
+    | _ => bad
+  | _ => none
+
 def runCase (lines : List String) : List String :=
-  (lines.foldl (fun (acc : Cache × List (List String)) l =>
-      let (c', out) := stepLine acc.1 l
-      (c', out :: acc.2)) (Cache.empty, [])).2.reverse.flatMap id
+  (lines.foldl (fun (acc : (Cache × List Cache) × List (List String)) l =>
+      match stepProfiles acc.1.2 l with
+      | some (ms', out) => ((acc.1.1, ms'), out :: acc.2)
+      | none =>
+        let (c', out) := stepLine acc.1.1 l
+        ((c', acc.1.2), out :: acc.2)) ((Cache.empty, []), [])).2.reverse.flatMap id
 
 end KoordVerif.C05
 
